@@ -1,6 +1,6 @@
 (* props/C43.v — property theorems for C43 (OTLP metrics convert to Prometheus series without
    distorting values).  Nothing but statements; proofs are in proof/OtlpProofs.v. *)
-From Coq Require Import List ZArith.
+From Coq Require Import List ZArith Bool.
 From Verif Require Import lib.Int64 model.Otlp proof.OtlpProofs.
 Import ListNotations.
 Open Scope Z_scope.
@@ -17,6 +17,13 @@ Theorem C43_bucket_sums : forall cs off k adj,
   forall p, bucket_at (buckets_of (convert_buckets_layout cs off k adj)) p = ref_sum cs off k adj p.
 Proof. exact bucket_sums. Qed.
 
+(* ... and the emitted layout is a well-formed span/delta encoding: one delta per span slot, no
+   negative span length, no negative offset after the first span — so its buckets have
+   pairwise distinct, increasing indexes and [bucket_at] above is the count of THE bucket p. *)
+Theorem C43_layout_wf : forall cs off k adj,
+  layout_pre_P cs off k adj -> layout_wf (convert_buckets_layout cs off k adj) = true.
+Proof. exact layout_wf_ok. Qed.
+
 (* non-vacuity: the former defect witness meets the hypotheses, and its single target bucket
    2 receives all 12 observations *)
 Example C43_bucket_sums_nonvacuous :
@@ -31,3 +38,75 @@ Theorem C43_bucket_sums_old_refuted :
     exists p, bucket_at (buckets_of (convert_buckets_layout_old cs off k true)) p
               <> ref_sum cs off k true p.
 Proof. exact old_refuted. Qed.
+
+(* Exponential histogram data point -> native histogram (exponentialToNativeHistogram): a scale
+   below -4 is rejected; otherwise the schema is min(scale, 8), the reset hint is "gauge" exactly
+   for delta temporality, zero count is copied, count and sum are the data point's (sum 0 when
+   unset), or both the stale marker when the point is flagged "no recorded value", and the
+   positive and negative buckets are the source buckets merged 2^(scale-8) to one (C43_bucket_sums). *)
+Theorem C43_exponential_histogram : forall p delta,
+  int32 (e_scale p) ->
+  (e_scale p < -4 -> exp_to_native true p delta = None) /\
+  (-4 <= e_scale p -> exists h w, exp_to_native true p delta = Some (h, w) /\
+     schema h = Z.min (e_scale p) 8 /\
+     hint h = (if delta then hintGauge else hintUnknown) /\
+     zcount h = e_zero p /\ custom h = [] /\
+     (e_norec p = true -> hsum h = staleNaN /\ hcount h = staleNaN) /\
+     (e_norec p = false -> hcount h = e_count p /\ hsum h = (if e_hassum p then e_sum p else 0)) /\
+     (layout_pre_P (b_counts (e_pos p)) (b_off (e_pos p)) (scale_down (e_scale p)) true ->
+        layout_wf (pspans h, pdeltas h) = true /\
+        forall i, bucket_at (buckets_of (pspans h, pdeltas h)) i =
+                  ref_sum (b_counts (e_pos p)) (b_off (e_pos p)) (scale_down (e_scale p)) true i) /\
+     (layout_pre_P (b_counts (e_neg p)) (b_off (e_neg p)) (scale_down (e_scale p)) true ->
+        layout_wf (nspans h, ndeltas h) = true /\
+        forall i, bucket_at (buckets_of (nspans h, ndeltas h)) i =
+                  ref_sum (b_counts (e_neg p)) (b_off (e_neg p)) (scale_down (e_scale p)) true i)).
+Proof. exact exp_to_native_spec. Qed.
+
+Example C43_exponential_histogram_nonvacuous :
+  let p := mkExp 9 1 (mkB 0 [0; 0; 5; 7]) (mkB (-3) [2; 0; 0; 0; 0; 1]) 16 true 0 false 5000000 0 in
+  int32 (e_scale p) /\ -4 <= e_scale p /\
+  layout_pre_P (b_counts (e_pos p)) (b_off (e_pos p)) (scale_down (e_scale p)) true /\
+  layout_pre_P (b_counts (e_neg p)) (b_off (e_neg p)) (scale_down (e_scale p)) true.
+Proof. exact exp_nonvacuous. Qed.
+
+(* Explicit-bucket histogram -> native histogram with custom buckets
+   (explicitHistogramToCustomBucketsHistogram): bucket j of the result is element j of the bucket
+   count array (and nothing outside the array), custom values are the explicit bounds, schema -53,
+   hint / sum / count / stale marker as above. *)
+Theorem C43_custom_buckets : forall p delta, hist_pre p ->
+  let h := fst (explicit_to_custom true p delta) in
+  schema h = customBucketsSchema /\ custom h = h_bounds p /\
+  hint h = (if delta then hintGauge else hintUnknown) /\ zcount h = 0 /\ nspans h = [] /\ ndeltas h = [] /\
+  (h_norec p = true -> hsum h = staleNaN /\ hcount h = staleNaN) /\
+  (h_norec p = false -> hcount h = h_count p /\ hsum h = (if h_hassum p then h_sum p else 0)) /\
+  layout_wf (pspans h, pdeltas h) = true /\
+  forall j, bucket_at (buckets_of (pspans h, pdeltas h)) j =
+            if (0 <=? j) && (j <? Z.of_nat (length (h_counts p))) then nth (Z.to_nat j) (h_counts p) 0 else 0.
+Proof. exact explicit_to_custom_spec. Qed.
+
+Example C43_custom_buckets_nonvacuous : hist_pre (mkHist [] [0; 3; 0; 9] 12 true 0 false 0 0).
+Proof. exact hist_nonvacuous. Qed.
+
+(* Timestamps: a nanosecond time that fits int64 becomes its millisecond (floor). *)
+Theorem C43_timestamps : forall ns, 0 <= ns <= maxInt64 ->
+  convert_timestamp ns = ns / 1000000 /\
+  1000000 * convert_timestamp ns <= ns < 1000000 * (convert_timestamp ns + 1).
+Proof. exact convert_timestamp_ms. Qed.
+
+(* Gauge / sum number data points: one sample with the point's start time and time in ms and
+   its value (double copied bit for bit, int converted by float64()), or the stale marker. *)
+Theorem C43_number_points : forall p,
+  num_sample p = Float SPlain (convert_timestamp (n_st p)) (convert_timestamp (n_ts p)) (num_value p) /\
+  (n_norec p = true -> num_value p = staleNaN) /\
+  (n_norec p = false -> forall b, n_val p = DblV b -> num_value p = b) /\
+  (n_norec p = false -> forall v, n_val p = IntV v -> num_value p = float_of_Z v).
+Proof. exact number_points. Qed.
+
+(* Temporality: anything but cumulative, or delta when allowed, is rejected with an error and
+   produces no sample. *)
+Theorem C43_temporality_gate : forall fixed s t, temp_ok s t = false ->
+  (forall pts, from_metric_gen fixed s (MSum t pts) = error_result) /\
+  (forall pts, from_metric_gen fixed s (MHist t pts) = error_result) /\
+  (forall pts, from_metric_gen fixed s (MExp t pts) = error_result).
+Proof. exact temporality_gate. Qed.
